@@ -141,6 +141,11 @@ func (g *gen) part(richness, pInvalid int, allowBad bool) *Part {
 		}
 	}
 	if g.pct(richness / 3) {
+		for i, k := 0, g.in(1, 3); i < k; i++ {
+			p.KP = append(p.KP, fmt.Sprintf("%s%d", words[g.r.IntN(len(words))], n))
+		}
+	}
+	if g.pct(richness / 3) {
 		for i, k := 0, g.in(1, 2); i < k; i++ {
 			p.Pairs = append(p.Pairs, [2]int{n*10 + i, n*10 + i + 5})
 		}
